@@ -640,8 +640,11 @@ Definition spec_ep_fields (a : attr) (r : vr) (c : ctype) (o : oep) : bool :=
   && bool_eqb (o_ws o) (is_channel a).
 
 (* no doc-comment text is lost between summary and description *)
+(* ([t] = the comment's text, computed once per declaration) *)
+Definition spec_doc_t (t : ustr) (s d : option ustr) : bool :=
+  list_eqb N.eqb (shown (mkExtracted s d)) t.
 Definition spec_doc (a : attr) (s d : option ustr) : bool :=
-  doc_lossless_b (a_docs a) (mkExtracted s d).
+  spec_doc_t (declared_text (a_docs a)) s d.      (* = doc_lossless_b (a_docs a) (mkExtracted s d) *)
 
 (* routing at version [v] ([None]: unversioned): the declared endpoint
    answers exactly inside its declared range, with the declared operation id,
@@ -659,7 +662,7 @@ Definition spec_route (a : attr) (r : vr) (c : ctype) (v : option version) (o : 
 
 (* the document for version [v] shows the operation iff published and in
    range, with the declared fields *)
-Definition spec_op (a : attr) (r : vr) (v : version) (o : option oop) : bool * bool :=
+Definition spec_op_t (t : ustr) (a : attr) (r : vr) (v : version) (o : option oop) : bool * bool :=
   match o with
   | Some p =>
       (negb (a_unpublished a) && in_range r (Some v)
@@ -667,9 +670,11 @@ Definition spec_op (a : attr) (r : vr) (v : version) (o : option oop) : bool * b
        && bool_eqb (p_deprecated p) (a_deprecated a)
        && match declared_req a with Some l => strs_eqb (p_req p) l | None => false end
        && bool_eqb (p_ws p) (is_channel a),
-       spec_doc a (p_summary p) (p_description p))
+       spec_doc_t t (p_summary p) (p_description p))
   | None => (a_unpublished a || negb (in_range r (Some v)), true)
   end.
+Definition spec_op (a : attr) (r : vr) (v : version) (o : option oop) : bool * bool :=
+  spec_op_t (declared_text (a_docs a)) a r v o.
 
 Definition all3 {A} (l : list A) : bool := (length l =? 3)%nat.
 
@@ -691,8 +696,9 @@ Definition spec_decl (a : attr) (eps : list (res N oep)) (unv : list oroute)
            (probes : list (str * list oroute * list (option oop) * bool)) : bool * bool :=
   match declared_range (a_versions a), declared_ctype a with
   | Some r, Some c =>
+      let t := declared_text (a_docs a) in
       let f_eps := forallb (fun e => match e with Ok o => spec_ep_fields a r c o | Err _ => false end) eps in
-      let d_eps := forallb (fun e => match e with Ok o => spec_doc a (o_summary o) (o_description o)
+      let d_eps := forallb (fun e => match e with Ok o => spec_doc_t t (o_summary o) (o_description o)
                                                   | Err _ => true end) eps in
       (* the three styles: identical registration, routing and documents *)
       let same := all_eq res_oep_eqb eps && all_eq oroute_eqb unv
@@ -702,7 +708,7 @@ Definition spec_decl (a : attr) (eps : list (res N oep)) (unv : list oroute)
       let pr := map (fun p => match p with (vs, rs, ops, _) =>
                   match Semver.parse vs with
                   | Some v =>
-                      let os := map (spec_op a r v) ops in
+                      let os := map (spec_op_t t a r v) ops in
                       (forallb (spec_route a r c (Some v)) rs && forallb fst os, forallb snd os)
                   | None => (false, false)
                   end end) probes in
@@ -744,32 +750,33 @@ Fixpoint forallb2 {A B} (f : A -> B -> bool) (l : list A) (m : list B) : bool :=
 
 Definition model_decl (a : attr) (eps : list (res N oep)) (unv : list oroute)
            (probes : list (str * list oroute * list (option oop) * bool)) : bool :=
-  forallb2 (fun st e =>
-      match expand st a, e with
+  (* the three expansions, computed once *)
+  let ms := map (fun st => expand st a) styles in
+  forallb2 (fun m e =>
+      match m, e with
       | Ok m, Ok o => oep_eqb (oep_of m) o
       | _, _ => false
-      end) styles eps
-  && forallb2 (fun st o =>
-      match expand st a with
+      end) ms eps
+  && forallb2 (fun m o =>
+      match m with
       | Ok m => oroute_eqb (oroute_of (route_view m None)) o
       | Err _ => false
-      end) styles unv
+      end) ms unv
   && forallb (fun p => match p with (vs, rs, ops, _) =>
       match Semver.parse vs with
       | None => false
       | Some v =>
-          forallb2 (fun st o =>
-            match expand st a with
+          forallb2 (fun m o =>
+            match m with
             | Ok m => oroute_eqb (oroute_of (route_view m (Some v))) o
             | Err _ => false
-            end) styles rs
-          && forallb2 (fun st o =>
-            match expand st a with
+            end) ms rs
+          && forallb2 (fun m o =>
+            match m with
             | Ok m => option_eqb oop_eqb (option_map oop_of (doc_view m v)) o
             | Err _ => false
-            end) styles ops
+            end) ms ops
       end end) probes.
-
 
 (* ====================================================================== *)
 (* Trait-level tag configuration: the [tag_config] argument of
@@ -934,3 +941,12 @@ Definition model_tagcfg (arg : option tc_arg) (eps : list attr)
              (map (fun p => (fst p, tag_err_code (snd p))) (build_errors c es))
        | None => false
        end) styles refused.
+
+(* ---- number of extractor parameters ----
+   handler.rs implements HttpHandlerFunc for functions of the request context
+   plus at most three extractors (impl_HttpHandlerFunc_for_func_with_params!
+   up to (T1, T2, T3)); extractor/common.rs implements RequestExtractor for
+   (X), (S1, X), (S1, S2, X).  A declaration with more does not compile, in
+   either form. *)
+Definition max_extractors : N := 3.
+Definition arity_compiles (n : N) : bool := n <=? max_extractors.
